@@ -36,8 +36,10 @@ CompD(d) == (d + 2) % 4
 EncSeq(s) == [i \in 1..Len(s) |-> Enc(s[i])]
 DecSeq(d) == [i \in 1..Len(d) |-> Dec(d[i])]
 RevComp(d) == LET n == Len(d) IN [i \in 1..n |-> CompD(d[n + 1 - i])]   \* on digit tuples
-RevCompBytes(s) == LET n == Len(s) IN
-   [i \in 1..n |-> IF IsBase(s[n + 1 - i]) THEN Dec(CompD(Enc(s[n + 1 - i]))) ELSE s[n + 1 - i]]
+\* on byte tuples: complements A/C/G/T keeping the letter case, leaves other bytes (N) alone
+CompByte(x) == IF ~IsBase(x) THEN x
+               ELSE IF IsLower(x) THEN ToLower(Dec(CompD(Enc(x)))) ELSE Dec(CompD(Enc(x)))
+RevCompBytes(s) == LET n == Len(s) IN [i \in 1..n |-> CompByte(s[n + 1 - i])]
 
 \* strict lexicographic order on equal-length digit tuples = numeric order of the
 \* implementation's packed integers
